@@ -231,7 +231,15 @@ def _construct_internal_shapes(
 def _cleanup_run_folder(run_folder: str | Path) -> None:
     """Remove the run folder and its contents."""
     run_folder = Path(run_folder)
-    shutil.rmtree(run_folder, ignore_errors=True)
+    # Move the old run out of the way atomically before deleting it: an interrupted removal
+    # must not leave a half-deleted run behind, whose remaining outputs a later
+    # `cleanup=False` run would silently reuse as if they belonged to the new inputs.
+    trash = run_folder.with_name(f".{run_folder.name}.deleting-{os.getpid()}")
+    try:
+        os.replace(run_folder, trash)
+    except OSError:  # e.g., the folder does not exist or cannot be renamed (mount point)
+        trash = run_folder
+    shutil.rmtree(trash, ignore_errors=True)
 
 
 def _compare_to_previous_run_info(
